@@ -237,11 +237,11 @@ def check_pipeline(cx, pid):
     inv = ["TypeOK", "QueryConsistent", "FireConsistent"]
     # exhaustive over a small palette: every operation sequence up to the bound, every position,
     # every event kind x entry point x forwarding mask (x panic injection for C07)
-    small = pipe_consts(["RW", "X"] if not panics else ["RW", "ALL"], 2 if quick else 3, 2, 2 if not panics else 1, panics)
+    small = pipe_consts((["RW", "X"] if quick else ["RW", "X", "ALL"]) if not panics else ["RW", "ALL"], 2 if quick else 3, 2, 2 if not panics else 1, panics)
     res = generic_mc(cx, "MCsmall", "Pipeline", small, inv, what="%s reference sanity, palette %s" % (pid, sorted(small["Types"])), timeout=1500)
-    gsmall = pipe_consts(["RW", "X"] if not panics else ["RW", "ALL"], 2, 2, 2 if not panics else 1, panics)
+    gsmall = pipe_consts(["RW", "X"] if not panics else ["RW", "ALL"], 2 if quick else 3, 2, 2 if not panics else 1, panics)
     init, adj = generic_graph(cx, "Gsmall", "Pipeline", gsmall, timeout=1500)
-    paths, total, planned = edge_cover(init, adj, cx.rnd, max_paths=3000 if quick else None)
+    paths, total, planned = edge_cover(init, adj, cx.rnd, max_paths=3000 if quick else 40000)
     cases = [{"id": "g%d" % i, "ops": [pipe_op(l) for _, l, _ in p], "seed": 1} for i, p in enumerate(paths)]
     rs = run_driver(cx.driver, "pipe", cases, cx.wd, tag="g")
     cx.absorb(rs, cases)
@@ -253,7 +253,7 @@ def check_pipeline(cx, pid):
     # random programs over the full palette of 12 handler types, longer histories, validated by TLC
     types = sorted(ALL_TYPES)
     big = pipe_consts(types, 16, 6, 3, panics)
-    n = 150 if quick else 2000
+    n = 150 if quick else 6000
     cases = [{"id": "r%d" % i, "random": 14, "types": types, "max_inst": 6, "max_per_op": 3, "panics": panics,
               "seed": cx.rnd.randrange(1 << 40)} for i in range(n)]
     rs = run_driver(cx.driver, "pipe", cases, cx.wd, tag="r")
